@@ -13,7 +13,7 @@ import solverchecks as sc
 def check(run):
     rng = random.Random(run.seed)
     thorough = run.tier == "thorough"
-    n = 400 if thorough else 50
+    n = 400 if thorough else 36
     run.cov["rule"] = ("a species list and a random permutation of its heavy species (x0 permuted with it), incl. ion-before-parent orders, on shipped and "
                        "synthetic sets; composition and species enthalpies compared after un-permuting, scalar outputs directly, whenever both runs converge "
                        "without warning (same tolerances as C04); distinct = (species order, permutation, T, P)")
@@ -29,7 +29,7 @@ def check(run):
         broken.append({"stage": "proof", "detail": res["error"]})
         run.note(f"proof obligation failed: {res['error']}")
     found, hist = None, {}
-    kinds = ["oxy", "oxy", "sico", "synth1", "synth2"]
+    kinds = ["oxy", "oxy", "oxy", "sico", "synth1", "synth1", "synth2", "synth2", "synth2"]
     for sps, x0, T, P, kind in sc.cases(rng, n, Trange=(1000.0, 25000.0), Prange=(1e4, 1e6), kinds=kinds):
         if kind == "oxy":
             sps, x0 = [gen.shipped(nm) for nm in gen.OXY], rng.choice([[1, 0, 0, 0, 0, 0], [0.2, 0, 0.8, 0, 0, 0]])
